@@ -30,6 +30,8 @@ class GE:
 
     def env(self, n=None):
         r = self.r
+        if n is None and self.max_points >= 7 and r.random() < 0.03:
+            n = r.choice([33, 40, 64, 65, 120])          # a long envelope now and then (an automation lane has hundreds of points)
         n = n if n is not None else r.randint(1, self.max_points)
         pts = []
         for i in range(n):
